@@ -6,6 +6,7 @@ require (
 	github.com/alibaba/RedisShake v0.0.0
 	github.com/cupcake/rdb v0.0.0-20161107195141-43ba34106c76
 	github.com/garyburd/redigo v1.6.2
+	golang.org/x/sync v0.0.0-20181221193216-37e7f081c4d4
 )
 
 require (
@@ -21,7 +22,6 @@ require (
 	github.com/prometheus/common v0.6.0 // indirect
 	github.com/prometheus/procfs v0.0.3-0.20190614152826-90b65b633401 // indirect
 	github.com/vinllen/redis-go-cluster v1.0.1-0.20200724054240-c957918bbc61 // indirect
-	golang.org/x/sync v0.0.0-20181221193216-37e7f081c4d4 // indirect
 	gopkg.in/natefinch/lumberjack.v2 v2.0.0-20170531160350-a96e63847dc3 // indirect
 )
 
